@@ -268,9 +268,19 @@ Sounding(s) == { <<s.ch[ci].u[ui].m, s.ch[ci].u[ui].n>> : <<ci, ui>> \in
                  { x \in (DOMAIN s.ch) \X (0..128) : x[2] \in DOMAIN s.ch[x[1]].u /\ s.ch[x[1]].k } }
 AnyKeyed(s) == \E ci \in DOMAIN s.ch : ci - 1 < s.nc /\ s.ch[ci].k
 
+\* The per-channel counter of pending minimum-life countdowns (extended_note_count) gates TickIterators(): the postponed
+\* key-off of a released percussion note is only performed while the counter of its MIDI channel is non-zero.  A counter
+\* that differs from the number of notes whose life time is still running is therefore a direct cause of stuck (or
+\* early cut) drum notes and is judged as part of C05 on every snapshot (the hooks expose it as mc[i].exc).
+ExtCountOK(s) == \A mi \in DOMAIN s.mc : s.mc[mi].exc = Count(s.mc[mi].notes, LAMBDA nt : nt.ttl)
+\* a note waits for its postponed key-off (ext) only while its life time is running (otherwise nobody will ever perform it)
+ExtPendingOK(s) == \A mi \in DOMAIN s.mc : \A ni \in DOMAIN s.mc[mi].notes : s.mc[mi].notes[ni].ext => s.mc[mi].notes[ni].ttl
+
 C05Fails(h, s) ==
   {"sounding" : x \in IF h.polyOK /\ Sounding(s) # Held(h) THEN {1} ELSE {}} \cup
-  {"stuck" : x \in IF h.quiet >= 30010 /\ AnyKeyed(s) THEN {1} ELSE {}}
+  {"stuck" : x \in IF h.quiet >= 30010 /\ AnyKeyed(s) THEN {1} ELSE {}} \cup
+  {"extcount" : x \in IF ExtCountOK(s) THEN {} ELSE {1}} \cup
+  {"extpending" : x \in IF ExtPendingOK(s) THEN {} ELSE {1}}
 
 \* C06: pre/post snapshots around an accepted or rejected NoteOn of pair p with a sounding instrument
 IdleChans(s) == { ci \in DOMAIN s.ch : ci - 1 < s.nc /\ s.ch[ci].u = <<>> }
